@@ -428,6 +428,28 @@ static int range_step_overflows(const rtosc_arg_val_t* lhs,
     }
 }
 
+//! Returns whether @a last - @a first leaves the value range of its type.
+//! The scanner computes such differences to find the number of elements.
+static int range_width_overflows(const rtosc_arg_val_t* first,
+                                 const rtosc_arg_val_t* last)
+{
+    switch(first->type)
+    {
+        case 'c':
+        case 'i':
+        {
+            int64_t width = (int64_t)last->val.i - first->val.i;
+            return width < INT32_MIN || width > INT32_MAX;
+        }
+        case 'h':
+            return (first->val.h < 0)
+                   ? last->val.h > INT64_MAX + first->val.h
+                   : last->val.h < INT64_MIN + first->val.h;
+        default:
+            return 0;
+    }
+}
+
 //! tries to convert all args starting at @a arg into
 //! an arg val range - if possible
 //! @param arg_out array, output which must have the size of arg or more;
@@ -480,7 +502,8 @@ static int32_t rtosc_convert_to_range(const rtosc_arg_val_t* const arg,
             }
 
             if(next >= size ||
-               !(has_delta ? rtosc_arg_vals_eq_single(&added, arg+next, NULL)
+               !(has_delta ? (rtosc_arg_vals_eq_single(&added, arg+next, NULL)
+                              && !range_width_overflows(arg, arg+next))
                            : range_args_identical(arg, arg+next)))
                 go_on = false;
         }
